@@ -24,7 +24,7 @@ ASSUMPTIONS = ['claimed domain decided by an independent colour-refinement/indiv
                'RDKit spelling is produced without RDKit aromaticity perception (Kekule bonds as written by chython)',
                'random permutations inside a re-description are drawn from random.Random(seed) with a Hypothesis-drawn seed']
 
-KINDS = ['rebuild', 'rebuild', 'remap', 'rand:r', 'rand:ra', 'rand:rA', 'rand:rh', 'rand:rAh', 'rdkit', 'ref']
+KINDS = ['rebuild', 'rebuild', 'remap', 'rand:r', 'rand:ra', 'rand:rA', 'rand:rh', 'rand:rAh', 'rdkit', 'ref', 'member']
 FORMATS = ['a', 'A', 'h', '!s', 'Ah', 'm']
 
 
@@ -74,6 +74,16 @@ def describe(kind, sd, m, mk, rec):
         return x, mp
     if kind == 'remap':
         x, mp = molgen.remap_copy(m, sd)
+        return x, mp
+    if kind == 'member':
+        # the same molecule, freshly rebuilt, after it served as a member of a reaction whose string / hash were taken first
+        from chython import ReactionContainer
+        x, mp, left = molgen.rebuild(mk, sd)
+        if left:
+            return None
+        x.thiele()
+        r = ReactionContainer([x], [m.copy()])
+        str(r), hash(r), format(r, 'm')
         return x, mp
     if kind.startswith('rand:'):
         _random.seed(sd)
@@ -256,6 +266,13 @@ def check_case(case, rec):
                 continue
             if dom is None:
                 dom = domain(m)
+            if dom == 'in' and bad[0] == 'string' and not mcb_unique(m) and \
+                    (any(a.stereo is not None for _, a in m.atoms()) or any(b.stereo is not None for *_, b in m.bonds())):
+                # stereogenicity of centres on (or next to) ring systems is decided on the perceived ring set: where the minimum
+                # cycle basis is not unique two numberings may keep different labels (same root as the SSSR-dependent aromatisation)
+                rec.count('mismatch:stereo-mcb-not-unique')
+                rec.fail('canonical-string', bad[1], sig='stereo-mcb-not-unique')
+                continue
             rec.count(f'mismatch:{dom}')
             if dom in ('gap-a', 'gap-b', 'budget'):
                 rec.sample(f'excluded-{dom}', s0)
